@@ -348,7 +348,7 @@ func (c *checker) bootstrap(ref *RefReplica, rep reporter) {
 
 // list checks ListNodeInfo: every replica with a bootstrap record is listed;
 // nothing is listed that holds no data.
-func (c *checker) list(m *RefStore, pairs []raftio.NodeInfo, rep reporter) {
+func (c *checker) list(m *RefStore, pairs []raftio.NodeInfo, ignore map[raftio.NodeInfo]bool, rep reporter) {
 	c.queries++
 	l, err := c.db.ListNodeInfo()
 	if err != nil {
@@ -370,6 +370,9 @@ func (c *checker) list(m *RefStore, pairs []raftio.NodeInfo, rep reporter) {
 		delete(got, p)
 	}
 	for n := range got {
+		if ignore[n] {
+			continue
+		}
 		rep("nodeinfo-mismatch", fmt.Sprintf("ListNodeInfo: unknown node %d/%d listed", n.ShardID, n.ReplicaID))
 		break
 	}
